@@ -112,6 +112,8 @@ class SliceV:
         self.line, self.s, self.e = line, s, e
 
     def at(self, i):
+        if z3.is_bv(i) and i.size() > W:
+            i = z3.Extract(W - 1, 0, i)
         return self.line.at(self.s + i)
 
     def length64(self):
@@ -223,6 +225,68 @@ def apply(ex, st, p, inp, depth=0):
         return fork(ex, st, z3.UGT(q, s),
                     lambda s1: [Outcome(s1, ret=r_ok(SliceV(ln, s + used, e), acc))],
                     lambda s2: [Outcome(s2, ret=r_err(1, "IsA"))])
+    if k in ("hex_digit1", "hex_digit0", "digit0", "alpha1", "alphanumeric1"):
+        pred = {"hex_digit1": is_hex, "hex_digit0": is_hex, "digit0": is_digit,
+                "alpha1": lambda b: z3.Or(z3.And(z3.UGE(b, 65), z3.ULE(b, 90)), z3.And(z3.UGE(b, 97), z3.ULE(b, 122))),
+                "alphanumeric1": lambda b: z3.Or(is_digit(b), z3.And(z3.UGE(b, 65), z3.ULE(b, 90)), z3.And(z3.UGE(b, 97), z3.ULE(b, 122)))}[k]
+        q = ln.first(lambda b: z3.Not(pred(b)), s, e, key={"hex_digit1": "nonhex", "hex_digit0": "nonhex", "digit0": "nondigit"}.get(k, "non" + k))
+        if k.endswith("0"):
+            return [Outcome(st, ret=r_ok(SliceV(ln, q, e), SliceV(ln, s, q)))]
+        return fork(ex, st, z3.UGT(q, s),
+                    lambda s1: [Outcome(s1, ret=r_ok(SliceV(ln, q, e), SliceV(ln, s, q)))],
+                    lambda s2: [Outcome(s2, ret=r_err(1, "Class"))])
+    if k in ("take_while", "take_while1", "take_till", "take_till1"):
+        fnv = p.args[0]
+        def pred(b, fnv=fnv):
+            outs = call_fn(ex, st, fnv, [b])
+            if len(outs) != 1 or outs[0].panic is not None:
+                raise Unsupported("byte predicate is not a straight-line function")
+            return ex.as_bool(outs[0].ret)
+        stop = (lambda b: z3.Not(pred(b))) if k.startswith("take_while") else pred
+        q = ln.first(stop, s, e, key=(k[:9], getattr(fnv, "span", None) or getattr(fnv, "name", None)))
+        if not k.endswith("1"):
+            return [Outcome(st, ret=r_ok(SliceV(ln, q, e), SliceV(ln, s, q)))]
+        return fork(ex, st, z3.UGT(q, s),
+                    lambda s1: [Outcome(s1, ret=r_ok(SliceV(ln, q, e), SliceV(ln, s, q)))],
+                    lambda s2: [Outcome(s2, ret=r_err(1, "TakeWhile1"))])
+    if k in ("is_a", "is_not"):
+        t = const_bytes(p.args[0])
+        member = lambda b: z3.Or(*[b == c for c in t]) if t else z3.BoolVal(False)
+        stop = (lambda b: z3.Not(member(b))) if k == "is_a" else member
+        q = ln.first(stop, s, e, key=(k, t))
+        return fork(ex, st, z3.UGT(q, s),
+                    lambda s1: [Outcome(s1, ret=r_ok(SliceV(ln, q, e), SliceV(ln, s, q)))],
+                    lambda s2: [Outcome(s2, ret=r_err(1, "IsA"))])
+    if k == "char":
+        c = p.args[0]
+        if not z3.is_bv_value(c):
+            raise Unsupported("char parser with a symbolic character")
+        cv = c.as_long()
+        if cv > 127:
+            raise Unsupported("char parser with a non-ASCII character")
+        return fork(ex, st, z3.And(z3.UGT(e, s), ln.at(s) == cv),
+                    lambda s1: [Outcome(s1, ret=r_ok(SliceV(ln, s + 1, e), z3.BitVecVal(cv, 32)))],
+                    lambda s2: [Outcome(s2, ret=r_err(1, "Char"))])
+    if k == "eof":
+        return fork(ex, st, e == s,
+                    lambda s1: [Outcome(s1, ret=r_ok(inp, SliceV(ln, s, s)))],
+                    lambda s2: [Outcome(s2, ret=r_err(1, "Eof"))])
+    if k == "rest":
+        return [Outcome(st, ret=r_ok(SliceV(ln, e, e), inp))]
+    if k == "recognize":
+        outs = []
+        for o in apply(ex, st, p.args[0], inp, depth + 1):
+            if o.panic is None and o.ret.disc == 0:
+                rest = o.ret.payloads[0][0].fields[0]
+                outs.append(Outcome(o.st, ret=r_ok(rest, SliceV(ln, s, rest.s))))
+            else:
+                outs.append(o)
+        return outs
+    if k == "tuple":
+        items = p.args[0]
+        if not isinstance(items, Agg):
+            raise Unsupported("tuple argument %r" % (items,))
+        return apply(ex, st, ParserV("pair", *items.fields), inp, depth + 1)
     if k == "anychar":
         return fork(ex, st, z3.UGT(e, s),
                     lambda s1: [Outcome(s1, ret=r_ok(SliceV(ln, s + 1, e), z3.ZeroExt(24, ln.at(s))))],
@@ -255,7 +319,7 @@ def apply(ex, st, p, inp, depth=0):
                     outs += go(o.st, i + 1)
             return outs
         return go(st, 0)
-    if k in ("delimited", "terminated", "preceded", "pair"):
+    if k in ("delimited", "terminated", "preceded", "pair", "separated_pair"):
         seq = list(p.args)
         def go(st0, cur, i, vals):
             if i == len(seq):
@@ -265,6 +329,8 @@ def apply(ex, st, p, inp, depth=0):
                     v = vals[0]
                 elif k == "preceded":
                     v = vals[1]
+                elif k == "separated_pair":
+                    v = Agg([vals[0], vals[2]])
                 else:
                     v = Agg(vals)
                 return [Outcome(st0, ret=r_ok(cur, v))]
@@ -370,11 +436,99 @@ def f_u8_from_str(ex, st, name, args):
     return [Outcome(st, ret=EnumV("Result", d, {0: [z3.Extract(7, 0, val)], 1: [Opaque("ParseIntError")]}))]
 
 
-FN_PARSERS = [(re.compile(r"^nom::character::complete::digit1::<"), "digit1"),
+FN_PARSERS = [(re.compile(r"^nom::character::complete::hex_digit1::<"), "hex_digit1"),
+              (re.compile(r"^nom::character::complete::hex_digit0::<"), "hex_digit0"),
+              (re.compile(r"^nom::character::complete::digit0::<"), "digit0"),
+              (re.compile(r"^nom::character::complete::alpha1::<"), "alpha1"),
+              (re.compile(r"^nom::character::complete::alphanumeric1::<"), "alphanumeric1"),
+              (re.compile(r"^nom::combinator::rest::<"), "rest"),
+              (re.compile(r"^nom::combinator::eof::<"), "eof"),
+              (re.compile(r"^nom::character::complete::digit1::<"), "digit1"),
               (re.compile(r"^nom::number::complete::hex_u32::<"), "hex_u32"),
               (re.compile(r"^nom::character::complete::anychar::<"), "anychar")]
 FN_TABLE = [(re.compile(r"^(?:core::str::|std::str::)?from_utf8$|^core::str::converts::from_utf8$"), f_from_utf8),
             (re.compile(r"^<u8 as FromStr>::from_str$|^<u8 as (?:core::str::|std::str::)?FromStr>::from_str$"), f_u8_from_str)]
+
+
+def s_u8_from_str_radix(ex, st, callee, args, argv, f):
+    """u8::from_str_radix(digits, 10 | 16) on a run of digits of that radix (what digit1 / hex_digit1 yield): Ok(value) iff <= 255"""
+    v, radix = ex.deref_val(st, argv[0]), argv[1]
+    if not isinstance(v, SliceV) or not z3.is_bv_value(radix) or radix.as_long() not in (10, 16):
+        raise Unsupported("from_str_radix(%r, %r)" % (v, radix))
+    ln, rd = v.line, radix.as_long()
+    big = z3.BitVecVal(0x1000, 16)
+    if rd == 10:
+        val = ln.fold(v.s, v.e, z3.BitVecVal(0, 16), lambda acc, b: z3.If(z3.UGT(acc, 255), big, acc * 10 + z3.ZeroExt(8, b - 48)), key="decimal")
+        ok_digits = z3.ULE(v.e, ln.first(lambda b: z3.Not(is_digit(b)), v.s, v.e, key="nondigit"))
+    else:
+        val = ln.fold(v.s, v.e, z3.BitVecVal(0, 16), lambda acc, b: z3.If(z3.UGT(acc, 255), big, (acc << 4) | z3.ZeroExt(8, hexval(b))), key="hexfull")
+        ok_digits = z3.ULE(v.e, ln.first(lambda b: z3.Not(is_hex(b)), v.s, v.e, key="nonhex"))
+    st.pc.append(z3.And(ok_digits, z3.UGT(v.e, v.s)))      # side condition of the table entry: a non-empty run of digits
+    d = z3.If(z3.ULE(val, 255), z3.BitVecVal(0, 64), z3.BitVecVal(1, 64))
+    return [Outcome(st, ret=EnumV("Result", d, {0: [z3.Extract(7, 0, val)], 1: [Opaque("ParseIntError")]}))]
+
+
+# ---------------------------------------------------------------- slice operations (for code that handles the line itself)
+
+def _sl(ex, st, v):
+    v = ex.deref_val(st, v)
+    if not isinstance(v, SliceV):
+        raise Unsupported("slice operation on %r" % (type(v).__name__,))
+    return v
+
+
+def _w(x):
+    """usize -> position width"""
+    return z3.Extract(W - 1, 0, x) if x.size() > W else x
+
+
+def s_slice_is_empty(ex, st, callee, args, argv, f):
+    v = _sl(ex, st, argv[0])
+    return ok1(st, v.e == v.s)
+
+
+def s_slice_len(ex, st, callee, args, argv, f):
+    return ok1(st, _sl(ex, st, argv[0]).length64())
+
+
+def s_slice_index_range(ex, st, callee, args, argv, f):
+    v, r = _sl(ex, st, argv[0]), argv[1]
+    ln64 = v.length64()
+    if not isinstance(r, Agg):
+        raise Unsupported("slice index with %r" % (r,))
+    kind = r.tyname
+    if kind == "RangeTo":
+        lo, hi = z3.BitVecVal(0, 64), r.fields[0]
+    elif kind == "RangeFrom":
+        lo, hi = r.fields[0], ln64
+    elif kind == "Range":
+        lo, hi = r.fields[0], r.fields[1]
+    else:
+        raise Unsupported("slice index with %s" % kind)
+    okc = z3.And(z3.ULE(lo, hi), z3.ULE(hi, ln64))
+    outs = []
+    s1, s2 = st.clone(), st.clone()
+    s1.pc.append(okc)
+    outs.append(Outcome(s1, ret=SliceV(v.line, v.s + _w(lo), v.s + _w(hi))))
+    s2.pc.append(z3.Not(okc))
+    outs.append(Outcome(s2, panic=Panic("slice index out of range", callee)))
+    return outs
+
+
+def s_slice_get_last(ex, st, callee, args, argv, f):
+    v = _sl(ex, st, argv[0])
+    which = callee.rsplit("::", 1)[-1]
+    d = z3.If(v.e == v.s, z3.BitVecVal(0, 64), z3.BitVecVal(1, 64))
+    b = v.at(0) if which == "first" else v.line.at(v.e - 1)
+    return ok1(st, EnumV("Option", d, {1: [b]}))
+
+
+SLICE_OPS = [
+    (r"^core::slice::<impl \[u8\]>::is_empty$", s_slice_is_empty),
+    (r"^core::slice::<impl \[u8\]>::len$", s_slice_len),
+    (r"^<\[u8\] as Index<Range(?:To|From)?<usize>>>::index$", s_slice_index_range),
+    (r"^core::slice::<impl \[u8\]>::(?:first|last)$", s_slice_get_last),
+]
 
 
 def constructor(kind, nargs):
@@ -465,7 +619,19 @@ def build_table(extra):
         (nomp + r"terminated::<", constructor("terminated", 2)),
         (nomp + r"preceded::<", constructor("preceded", 2)),
         (nomp + r"pair::<", constructor("pair", 2)),
+        (nomp + r"separated_pair::<", constructor("separated_pair", 3)),
+        (nomp + r"tuple::<", constructor("tuple", 1)),
+        (nomp + r"recognize::<", constructor("recognize", 1)),
+        (nomp + r"take_while::<", constructor("take_while", 1)),
+        (nomp + r"take_while1::<", constructor("take_while1", 1)),
+        (nomp + r"take_till::<", constructor("take_till", 1)),
+        (nomp + r"take_till1::<", constructor("take_till1", 1)),
+        (nomp + r"is_a::<", constructor("is_a", 1)),
+        (nomp + r"is_not::<", constructor("is_not", 1)),
+        (nomp + r"char::<", constructor("char", 1)),
+        (r"^core::num::<impl u8>::from_str_radix$", s_u8_from_str_radix),
+        (r"^<u8 as FromStr>::from_str$|^core::str::<impl str>::parse::<u8>$", lambda ex, st, c, a, v, f: f_u8_from_str(ex, st, c, [v[0]])),
         (r"^<\{closure@.*\} as Fn(?:Mut|Once)?<\(&\[u8\],\)>>::call(?:_mut|_once)?$", s_apply),
         (r"^<&\[u8\] as Into<(?:std::vec::)?Vec<u8>>>::into$|^<&\[u8\] as (?:std::convert::)?Into<Vec<u8>>>::into$", lambda ex, st, c, a, v, f: ok1(st, v[0])),
     ]
-    return compile_table(ent + extra + COMMON)
+    return compile_table(ent + extra + SLICE_OPS + COMMON)
